@@ -579,6 +579,16 @@ where
         if start_index > ef.len() {
             panic!("Index out of bounds: {} > {}", start_index, ef.len());
         }
+        if start_index == ef.len() {
+            // Nothing to iterate on, and there is no one of rank start_index
+            return Self {
+                ef,
+                index: start_index,
+                word_idx: 0,
+                window: 0,
+                low_bits: ef.low_bits.into_unchecked_iter_from(start_index),
+            };
+        }
         let bit_pos = unsafe { ef.high_bits.select_unchecked(start_index) };
         let word_idx = bit_pos / (usize::BITS as usize);
         let bits_to_clean = bit_pos % (usize::BITS as usize);
